@@ -670,6 +670,45 @@ impl<'e, 'd> World<'e, 'd> {
                     canon: squash(canon),
                 }
             }
+            Op::ShapeSweep { text, script, count, vary, tuple } => {
+                if let Err(e) = self.ensure_font() {
+                    return e;
+                }
+                let font = self.font.as_mut().unwrap();
+                let script = tag_from_str(script);
+                let owned = tuple
+                    .as_ref()
+                    .and_then(|raw| make_tuple(&font.font_table_provider, raw));
+                let mut h = Fnv::new();
+                let mut errs = 0u32;
+                for i in 0..u32::from(*count) {
+                    let lang = if *vary != 1 {
+                        let l = [b'A' + (i / 676 % 26) as u8, b'A' + (i / 26 % 26) as u8, b'A' + (i % 26) as u8, b' '];
+                        Some(u32::from_be_bytes(l))
+                    } else {
+                        None
+                    };
+                    let mask = if *vary != 0 {
+                        // distinct subsets of the optional typographic features
+                        allsorts::gsub::FeatureMask::default().bits() ^ (u64::from(i) << 3)
+                    } else {
+                        allsorts::gsub::FeatureMask::default().bits()
+                    };
+                    let features = features_from(&Feat { mask: Some(mask), custom: None });
+                    let glyphs = font.map_glyphs(text, script, presentation(false));
+                    let res = font.shape(glyphs, script, lang, &features, owned.as_ref().map(|t| t.as_tuple()), true);
+                    let (infos, head) = match res {
+                        Ok(infos) => (infos, "Ok".to_string()),
+                        Err((e, infos)) => {
+                            errs += 1;
+                            (infos, format!("Err({:?})", e))
+                        }
+                    };
+                    h.write(head.as_bytes());
+                    h.write(format!("{:?}", infos).as_bytes());
+                }
+                OpOut::ok(format!("sweep {} errs {} {:016x}", count, errs, h.finish()))
+            }
             Op::FeaturesSupported { script, lang, mask } => {
                 if let Err(e) = self.ensure_font() {
                     return e;
@@ -1618,7 +1657,12 @@ fn run_trace_impl(
             );
             state_sig = next;
         }
-        let limit = STEP_BASE + STEP_PER_BYTE * (env.font_len as u64 + op.arg_len() as u64);
+        // (a sweep is `count` operations in one: each gets the allowance of one)
+        let sweep = match op {
+            Op::ShapeSweep { count, .. } => u64::from(*count).max(1),
+            _ => 1,
+        };
+        let limit = (STEP_BASE + STEP_PER_BYTE * (env.font_len as u64 + op.arg_len() as u64)).saturating_mul(sweep);
         allsorts::verif::reset();
         allsorts::verif::set_step_limit(limit);
         crate::util::reset_ticks(limit);
@@ -1735,8 +1779,7 @@ fn run_trace_impl(
         // glyphs of the returned run (a run the library lets grow without bound still ends in
         // the heap budget or the watchdog).
         let run_len = extra.shape.as_ref().map(|sf| sf.len_shaped as u64).unwrap_or(0);
-        let cpu_limit = CPU_BASE_US
-            + CPU_PER_BYTE_US * (env.font_len as u64 + op.arg_len() as u64)
+        let cpu_limit = (CPU_BASE_US + CPU_PER_BYTE_US * (env.font_len as u64 + op.arg_len() as u64)).saturating_mul(1 + sweep / 100)
             + run_len.saturating_mul(run_len) / 10;
         if result.is_ok() && cpu_us > cpu_limit && !stop {
             let v = Violation {
